@@ -107,6 +107,41 @@ func checkC13(P *Prog, r *Result) {
 		}
 	}
 	r.floor("C13/twin-language", 12)
+	// the two context constructors (Parse-side and Validate-side) must clear the same catch flags
+	ca := P.newCatchAnalysis()
+	var ctorNames []string
+	sets := map[string]string{}
+	for fn, fs := range ca.ctors {
+		var names []string
+		for _, fl := range ca.flags {
+			if fs[fl.Origin()] {
+				names = append(names, fl.Name())
+			}
+		}
+		sort.Strings(names)
+		ctorNames = append(ctorNames, fname(fn))
+		sets[fname(fn)] = strings.Join(names, ",")
+	}
+	sort.Strings(ctorNames)
+	if len(ctorNames) >= 2 {
+		same := true
+		for _, n := range ctorNames {
+			if sets[n] != sets[ctorNames[0]] {
+				same = false
+			}
+		}
+		var facts []string
+		for _, n := range ctorNames {
+			facts = append(facts, n+" clears {"+sets[n]+"}")
+		}
+		if same {
+			r.ok("C13/twin-constructors", "SchemaCtx constructors", "-", "all context constructors clear the same catch flags", facts...)
+		} else {
+			r.bad("C13/twin-constructors", "SchemaCtx constructors", "-", "the Parse-side and Validate-side context constructors do not clear the same catch flags: a recycled context behaves differently in the two modes", facts...)
+		}
+	} else {
+		r.undecided("C13/twin-constructors", "SchemaCtx constructors", "-", "fewer than two context constructors found")
+	}
 
 	// ---- twin-args ----
 	if len(R.Pipelines) == 2 {
